@@ -177,10 +177,13 @@ fn check_natural(cli: &Cli, r: &Report) {
 
 // ------------------------------------------------------------- (ii) arg names
 
-const NUMERIC: [&str; 22] = [
+const NUMERIC: [&str; 32] = [
     "0", "1", "2", "9", "10", "010", "100", "-1", "-20", "-3", "1.5", "-0.5", "1e1", "9.25", "2.0", "0.0",
     "9007199254740993", "9007199254740992", "18446744073709551616", "340282366920938463463374607431768211455",
     "-170141183460469231731687303715884105728", "1e40",
+    // neighbours that share one f64 approximation (exact tie-break), both signs, and a float on the tie
+    "-9007199254740993", "-9007199254740992", "-9223372036854775808", "-9223372036854775807", "-9223372036854775806",
+    "9223372036854775807", "9223372036854775806", "-9007199254740992.0", "-170141183460469231731687303715884105727", "18446744073709551617",
 ];
 const IDENTS: [&str; 10] = ["a", "a2", "a10", "a02", "b", "B", "_x", "x1y2", "x1y10", ""];
 const ODD: [&str; 8] = ["inf", "nan", "-inf", "1f", "0x10", "1_000", "+5", " 7"];
@@ -541,8 +544,9 @@ fn sort_args_through_tree(list: &[&'static str], attr: u8, reverse: bool) -> Res
 fn check_arg_lists(cli: &Cli, r: &Report) {
     // Integer, float and string lists of length <= 4 (5 thorough), every attribute
     // and direction: permutation, reverse, value order, declaration order.
-    let pools: [(&str, Vec<&'static str>); 4] = [
+    let pools: [(&str, Vec<&'static str>); 5] = [
         ("integers", vec!["10", "9", "100", "1", "-1", "-20", "007"]),
+        ("big integers", vec!["-9223372036854775807", "-9223372036854775808", "9223372036854775807", "-9223372036854775806", "9223372036854775806", "0"]),
         ("floats", vec!["1.5", "-0.5", "1e1", "9.25", "0.0", "2"]),
         ("identifiers", vec!["a10", "a2", "b", "a02", "B", "a"]),
         ("mixed", vec!["2", "1e1", "1f", "a", "-3", "nan"]),
@@ -967,7 +971,7 @@ fn main() {
     r.set_bounds(json!({
         "natural_cmp": {"alphabet": SYMS, "max_len": 4, "transitivity_max_len": if cli.thorough {4} else {3}},
         "arg_labels": {"numeric": NUMERIC, "identifiers": IDENTS, "odd": ODD},
-        "arg_lists": {"pools": ["integers","floats","identifiers","mixed"], "max_len": if cli.thorough {5} else {4}},
+        "arg_lists": {"pools": ["integers","big integers","floats","identifiers","mixed"], "max_len": if cli.thorough {5} else {4}},
         "siblings": {"kinds": ["bench","args bench","group module","plain module","generic types","generic consts"], "names": ["a2","a10","b","A","a02"], "max": if cli.thorough {4} else {3}, "line_modes": ["declaration order","reversed","one line, distinct columns"]}
     }));
     r.emit();
